@@ -277,9 +277,14 @@ func (i *dbIter) prev() bool {
 			}
 		}
 	}
+	// The walk may have ended because the underlying iterator failed, not
+	// because it ran out of entries: newer versions of the collected key
+	// may not have been seen, so the collected entry must not be served.
+	if i.iterErr(); i.err != nil {
+		return false
+	}
 	if del {
 		i.dir = dirSOI
-		i.iterErr()
 		return false
 	}
 	return true
